@@ -122,9 +122,7 @@ func runC08(c *fw.Ctx) {
 	}
 	// sign with refreshed material
 	signers := scen.DrawSubset(c.S, ids, t+1)
-	if p == scen.CMP && len(signers) > 3 {
-		signers = signers[:3]
-	}
+	signers = capSigners(p, signers, t)
 	msg := scen.DrawMsg(c)
 	ss := scen.NewSession(c, "sg", prev.SignMk(signers, msg, []byte(c.Label("sid", "sign")), scen.SignPlain), nil)
 	ss.Run(c, true)
